@@ -1149,3 +1149,133 @@ Fixpoint fspath_eqb (a b : fspath) : bool :=
 Definition path_text (p : fspath) : str := flat_map (fun c => 47 :: c) p.
 Definition word_of_file (root p : fspath) : word :=
   if fspath_eqb p (root ++ [S_main_nf]) then WMainNf else WLit (path_text p).
+
+(* ---------- torn (present but unreadable) completion markers (Proofs/C19Torn.v, C19Source_Torn.v; harness kind `torn`) ----------
+   The model above assumes that a published file appears atomically.  nextflow's publishDir copies a file into place, so an
+   interruption DURING a publication leaves a file that exists under its final name and holds a prefix of its content.  The only
+   file whose content the script parses is the completion marker (json.load in validate_job_dir_and_return_meta, then
+   meta["n_unobserved_plates"]); selected_plate is read as text and the other files are only globbed for.
+     torn_set            the steps whose job directory holds a screen_metadata.json that json.load cannot read.  In the tree
+                         component such a directory has f_meta = None (there is no value to read): torn_wf
+     tres                result of examine on such a tree: TRaised why = an exception that names no directory (70: JSONDecodeError),
+                         raised before anything is touched
+     examine_t tfix      examine as written, with the marker check of a torn directory raising (tfix = false: the script today) or
+                         answering None like a missing marker (tfix = true: the repair `except ValueError: return None` around json.load)
+     tentry              a crash-schedule entry + te_torn: the interruption inside the pipeline run comes WHILE the last of the
+                         k - 4 files is being published instead of after it; if that file is the marker it is left torn (any
+                         other file: whole, see above), and the pipeline run has not succeeded
+     attempt_t           one call of run_next_* on a tree with torn markers: raises (tree untouched, nothing named), or names a
+                         directory (the operator removes it, torn or not), or is the model's attempt on the tree component
+     op_screen_t         the operator counts directories HOLDING a marker file (he does not parse it)
+     session_t           script_session over attempt_t *)
+Inductive tres (A : Type) := TOk (a : A) | TNamed (why : Z) (s : step) | TRaised (why : Z).
+Arguments TOk {A} a.
+Arguments TNamed {A} why s.
+Arguments TRaised {A} why.
+Definition tbind {A B} (r : tres A) (k : A -> tres B) : tres B :=
+  match r with TOk a => k a | TNamed w s => TNamed w s | TRaised w => TRaised w end.
+Definition tres_of_xres {A} (r : xres A) : tres A :=
+  match r with XOk a => TOk a | XNamed w s => TNamed w s end.
+
+Definition torn_set := list step.
+Definition is_torn (t : torn_set) (s : step) : bool := existsb (step_eqb s) t.
+Definition untear (s : step) (t : torn_set) : torn_set := filter (fun x => negb (step_eqb s x)) t.
+Definition tfs := (fs * torn_set)%type.
+Definition torn_wf (tf : tfs) : Prop :=
+  forall it pl pidx d, In (it, pl) (fst tf) -> In (pidx, d) pl -> is_torn (snd tf) (it, pidx) = true -> f_meta d = None.
+
+Fixpoint examine_plates_t (tfix : bool) (torn : torn_set) (it : Z) (st : exst) (idx : Z) (pl : idir) : tres exst :=
+  match pl with
+  | [] => TOk st
+  | (pidx, d) :: r =>
+      if is_torn torn (it, pidx) then (if tfix then TNamed 1 (it, pidx) else TRaised 70)
+      else
+      match f_meta d with
+      | None => TNamed 1 (it, pidx)
+      | Some m =>
+          if negb (pidx =? idx) then TNamed 2 (it, pidx)
+          else examine_plates_t tfix torn it (mkx (Some m) it pidx (Some ((it, pidx), d))) (idx + 1) r
+      end
+  end.
+Definition examine_iter_t (tfix : bool) (torn : torn_set) (fixed : bool) (st : exst) (itd : Z * idir) : tres exst :=
+  let pl := sort_dirs (snd itd) in
+  let st0 := if fixed && is_nil pl then st else mkx (x_meta st) (x_iter st) 0 (x_leak st) in
+  examine_plates_t tfix torn (fst itd) st0 0 pl.
+Fixpoint examine_iters_t (tfix : bool) (torn : torn_set) (fixed : bool) (st : exst) (l : fs) : tres exst :=
+  match l with
+  | [] => TOk st
+  | itd :: r => tbind (examine_iter_t tfix torn fixed st itd) (fun st' => examine_iters_t tfix torn fixed st' r)
+  end.
+Definition examine_t (tfix fixed : bool) (bs : Z) (tf : tfs) : tres (Z * Z * option Z * option spath) :=
+  tbind (examine_iters_t tfix (snd tf) fixed exst0 (sort_dirs (fst tf))) (fun st =>
+    match x_meta st with
+    | None => TOk (0, 0, None, None)
+    | Some m =>
+        if x_plate st >=? bs - 1
+        then TOk (x_iter st + 1, 0, Some m, screen_of (x_leak st))
+        else TOk (x_iter st, x_plate st + 1, Some m, screen_of (x_leak st))
+    end).
+
+Record tentry := mkte { te_e : entry; te_torn : bool }.
+Definition last_is_meta (ps : list kind) : bool := match rev ps with k :: _ => is_meta k | [] => false end.
+Definition clear_meta (d : pdir) : pdir :=
+  mkp (f_training d) (f_test d) (f_thetas d) (f_dist d) (f_selected d) (f_advanced d) None (f_by d).
+
+Definition attempt_t (tfix : bool) (md : mode) (fixed : bool) (bs : Z) (n : nat) (tf : tfs) (te : tentry) : tfs * logitem :=
+  match examine_t tfix fixed bs tf with
+  | TRaised w => (tf, GFail w)
+  | TNamed w s => ((rmtree s (fst tf), untear s (snd tf)), GNamed w s)
+  | TOk (i, j, _, _) =>
+      let '(f1, g) := attempt md fixed bs n (fst tf) (te_e te) in
+      (* the first action of a call that acts is rmtree of its job directory (i, j) *)
+      let torn1 := match g with GDone | GStopped O | GNamed _ _ => snd tf | _ => untear (i, j) (snd tf) end in
+      match g with
+      | GLaunch s l ps ok =>
+          (* the interruption comes WHILE the (k-4)-th file is being published: it exists, torn; only a torn marker matters *)
+          if te_torn te && last_is_meta ps && Nat.eqb (length ps) (e_k (te_e te) - 4)
+          then ((upd_plate s clear_meta f1, s :: torn1), GLaunch s l ps false)
+          else ((f1, torn1), g)
+      | _ => ((f1, torn1), g)
+      end
+  end.
+
+Fixpoint script_run_t (tfix : bool) (md : mode) (fixed : bool) (bs : Z) (n : nat) (tf : tfs) (sched : list tentry)
+  : tfs * list logitem :=
+  match sched with
+  | [] => (tf, [])
+  | e :: r =>
+      let '(tf1, g) := attempt_t tfix md fixed bs n tf e in
+      let '(tf2, gs) := script_run_t tfix md fixed bs n tf1 r in
+      (tf2, g :: gs)
+  end.
+
+Record ires_t := mkrt { rt_fs : tfs; rt_calls : list logitem; rt_end : iend; rt_rest : list tentry }.
+Fixpoint invocation_t (tfix : bool) (md : mode) (fixed : bool) (bs : Z) (n : nat) (tf : tfs) (sched : list tentry) : ires_t :=
+  match sched with
+  | [] => mkrt tf [] IExhausted []
+  | e :: r =>
+      let '(tf1, g) := attempt_t tfix md fixed bs n tf e in
+      match call_returns md bs g with
+      | Some true => let r2 := invocation_t tfix md fixed bs n tf1 r in
+                     mkrt (rt_fs r2) (g :: rt_calls r2) (rt_end r2) (rt_rest r2)
+      | Some false => mkrt tf1 [g] IReturned r
+      | None => mkrt tf1 [g] IRaised r
+      end
+  end.
+Definition op_screen_t (md : mode) (bs : Z) (tf : tfs) : Z :=
+  match md with
+  | Retro => 0
+  | Prosp => (zlen (completed (fst tf)) + zlen (snd tf)) / bs
+  end.
+Fixpoint session_t (fuel : nat) (tfix : bool) (md : mode) (fixed : bool) (bs : Z) (n : nat) (tf : tfs) (sched : list tentry)
+  : tfs * list irec :=
+  match fuel, sched with
+  | S m, _ :: _ =>
+      let r := invocation_t tfix md fixed bs n tf sched in
+      let '(tf2, recs) := session_t m tfix md fixed bs n (rt_fs r) (rt_rest r) in
+      (tf2, mki (op_screen_t md bs tf) (rt_calls r) (rt_end r) :: recs)
+  | _, _ => (tf, [])
+  end.
+Definition script_session_t (tfix : bool) (md : mode) (fixed : bool) (bs : Z) (n : nat) (tf : tfs) (sched : list tentry)
+  : tfs * list irec := session_t (length sched) tfix md fixed bs n tf sched.
+Definition whole (e : entry) : tentry := mkte e false.
